@@ -70,7 +70,9 @@ func fixBlock(from uintptr, block []byte, trampoline uintptr,
 			if l := copy(copyBlock, block); l != len(block) {
 				return nil, 0, errors.New("copy block array error")
 			}
-			fixedInsData := fixIns(ins, pos, copyBlock, blockSize, (uint64)(from), trampoline)
+			// 前面的短跳转指令被扩展成长跳转后, 后续指令在 trampoline 中的位置会整体后移, 需要计入偏移
+			fixedInsData := fixIns(ins, pos, copyBlock, blockSize, (uint64)(from),
+				trampoline+uintptr(len(fixedBlock)-pos))
 			fixedBlock = append(fixedBlock, fixedInsData...)
 
 			logger.Debugf("[%d]>[%d] 0x%x:\t%s\t\t%s\t\t%s", ins.Len, len(fixedInsData),
@@ -114,7 +116,7 @@ func fixIns(ins *x86asm.Inst, pos int, block []byte, blockSize int,
 	logger.Debugf("ins relative [%d] need fix : ", (addr)+pos+ins.Len)
 
 	if (addr > 0 && (addr)+pos+ins.Len >= blockSize) ||
-		(addr < 0 && (addr)+pos+ins.Len < 0) {
+		(addr < 0 && (addr)+pos+ins.Len <= 0) {
 		if ins.Op.String() == bytecode.CallInsName {
 			logger.Debug((int64)(from)-(int64)(trampoline), from, trampoline, int32(addr))
 		}
